@@ -3,7 +3,7 @@ import SfntV.Model.TotalCffIndex
 
 /-!
 Line protocol of the checked-index models of group `namecff` (property C02):
-`tmnamecff.name bytes=<hex>`, `tmnamecff.utf16 bytes=<hex>`, `tmnamecff.index bytes=<hex> pos=<n>`.
+`tmnamecff.name bytes=<hex>`, `tmnamecff.utf16 bytes=<hex>`, `tmnamecff.index bytes=<hex> pos=<n>`, `tmnamecff.indexat bytes=<hex> pos=<int>`.
 -/
 namespace SfntV.Drive.TotalNameCff
 open SfntV SfntV.Total SfntV.Total.NameCff
@@ -64,6 +64,14 @@ def handle (op : String) (fs : List (String × String)) : String :=
       | none => "bad-case"
       | some pos =>
         match readIndex b pos with
+        | .ok ((items, e), _) => s!"ok:{e};{items.length};" ++ ",".intercalate (items.map showItem)
+        | .err e => "err:" ++ e
+        | .panic _ => "panic"
+    else if op == "tmnamecff.indexat" then
+      match (getField fs "pos").bind String.toInt? with
+      | none => "bad-case"
+      | some pos =>
+        match readIndexAt b pos with
         | .ok ((items, e), _) => s!"ok:{e};{items.length};" ++ ",".intercalate (items.map showItem)
         | .err e => "err:" ++ e
         | .panic _ => "panic"
